@@ -493,12 +493,16 @@ class HashRule(ABC):
             symbol_part += "."
             part_i = parts[i]
             symbol_part += part_i
-            ref_to_resolve = ref
 
-            def resolver():
-                return getattr(ref_to_resolve, part_i)
+            def resolver(path=tuple(parts[0 : i + 1])):
+                # Always walk from the global table so that re-binding of any part of the
+                # dotted name is noticed
+                obj = global_table[path[0]] if path[0] in global_table else None
+                for attr in path[1:]:
+                    obj = getattr(obj, attr, None)
+                return obj
 
-            ref = resolver()
+            ref = getattr(ref, part_i)
             rule = resolve_symbol(parent_symbol, symbol_part, resolver, ref)
             if rule is not None:
                 # collect_transitive_dependencies will add this rule to result
